@@ -196,6 +196,11 @@ func c11Ops() []c11Op {
 		{Name: "vv-pull-conflict-remote-tombstone", Run: c11PullVV("dc", true, true, RemoteWinsConflictResolver)},
 		{Name: "vv-pull-no-conflict", Run: c11PullVV("dc", false, false, DefaultLWWConflictResolutionType)},
 		{Name: "vv-pull-no-conflict-other-revtree", Run: c11PullVVOtherTree("dc")},
+		{Name: "vv-client-push-update", Run: c11ClientPushVV("dc", false, false, false)},
+		{Name: "vv-client-push-update-with-revtree-history", Run: c11ClientPushVV("dc", false, false, true)},
+		{Name: "vv-client-push-tombstone", Run: c11ClientPushVV("dc", true, false, false)},
+		{Name: "vv-client-push-on-tombstone", Run: c11ClientPushVV("dct", false, false, false)},
+		{Name: "reject-vv-client-push-conflict", Reject: true, Run: c11ClientPushVV("dc", false, true, false)},
 		{Name: "import-on-demand", Run: func(w *c11World) error {
 			_, err := w.v.coll.GetDocument(w.v.ctx, "ext1", DocUnmarshalAll)
 			return err
@@ -335,6 +340,40 @@ func c11PullVV(id string, deleted, conflict bool, resolver ConflictResolverFunc)
 			ConflictResolver:               NewConflictResolver(resolver, nil),
 			ISGRWrite:                      true,
 		})
+		return err
+	}
+}
+
+// c11ClientPushVV is a revision pushed by a Couchbase Lite style client under the version-vector protocol (not a Sync
+// Gateway peer: no conflict resolver, the server generates the revision-tree id): its vector knows the current local
+// version (accepted) or only the first one (conflict: refused)
+func c11ClientPushVV(id string, deleted, conflict, withRevTreeHistory bool) func(w *c11World) error {
+	return func(w *c11World) error {
+		ver1 := w.verDc1
+		if id == "dct" {
+			ver1 = w.verDct1
+		}
+		cur, err := w.v.coll.GetDocument(w.v.ctx, id, DocUnmarshalSync)
+		if err != nil {
+			return err
+		}
+		pv := HLVVersions{w.v.db.EncodedSourceID: cur.HLV.Version}
+		if conflict {
+			pv[w.v.db.EncodedSourceID] = ver1
+		}
+		newDoc := &Document{ID: id, Deleted: deleted}
+		if !deleted {
+			newDoc.UpdateBody(Body{"channels": []string{"A", "B"}, "v": "client"})
+		} else {
+			newDoc.UpdateBody(Body{})
+		}
+		incoming := &HybridLogicalVector{SourceID: "Y2xpZW50", Version: cur.HLV.Version + 1000, PreviousVersions: pv}
+		newDoc.HLV = incoming
+		opts := PutDocOptions{NewDoc: newDoc, NewDocHLV: incoming}
+		if withRevTreeHistory {
+			opts.RevTreeHistory = []string{cur.GetRevTreeID()}
+		}
+		_, _, _, err = w.v.coll.PutExistingCurrentVersion(w.v.ctx, opts)
 		return err
 	}
 }
